@@ -85,14 +85,17 @@ class Run:
         run = self
 
         class HTarget(Maintainable):
-            def __init__(self, name, table, hook_requests):
-                self.name = name
+            def __init__(self, name, table, hook_requests, nameless=False):
+                # the Maintainable interface does not ask for a name: some targets have none
+                self.h_name = name
+                if not nameless:
+                    self.name = name
                 self.table = table                # tag -> [duration, capacity, cost]
                 self.hook_requests = hook_requests  # tag -> [('start'|'end', target name, tag)]
 
             def get_work_order_duration(self, tag):
                 d = self.table[tag][0]
-                run.duration_reads.append((self.name, tag, d, run.env.now))
+                run.duration_reads.append((self.h_name, tag, d, run.env.now))
                 return d
 
             def get_work_order_capacity(self, tag):
@@ -102,13 +105,13 @@ class Run:
                 return self.table[tag][2]
 
             def start_work(self, tag):
-                run.on_hook(self.name, tag, 'start')
+                run.on_hook(self.h_name, tag, 'start')
                 for when, tn, tg in self.hook_requests.get(tag, []):
                     if when == 'start':
                         run.request(tn, tg)
 
             def end_work(self, tag):
-                run.on_hook(self.name, tag, 'end')
+                run.on_hook(self.h_name, tag, 'end')
                 for when, tn, tg in self.hook_requests.get(tag, []):
                     if when == 'end':
                         run.request(tn, tg)
@@ -122,7 +125,7 @@ class Run:
         self.targets = {}
         for name, t in case['targets'].items():
             hooks = {tag: [tuple(x) for x in lst] for tag, lst in t.get('hooks', {}).items()}
-            self.targets[name] = HTarget(name, t['table'], hooks)
+            self.targets[name] = HTarget(name, t['table'], hooks, t.get('nameless', False))
         self.ref = RefMaintainer(float('inf') if case['capacity'] is None else case['capacity'])
         self.bus.attach(self)
         self.failed = False
@@ -309,7 +312,7 @@ def gen_case(rng, tie):
             if rng.random() < 0.2:
                 # a hook re-requests with the dedicated tag 'h' (never with the tag that is finishing)
                 hooks[tg] = [[rng.choice(['start', 'end']), rng.choice(names), 'h']]
-        targets[n] = {'table': table, 'hooks': hooks}
+        targets[n] = {'table': table, 'hooks': hooks, 'nameless': rng.random() < 0.15}
     horizon = 20.0
     script = []
     t = 0.0
